@@ -38,6 +38,8 @@ type c20Case struct {
 	Explore  *c20ExploreC `json:"explore,omitempty"`
 	Rec      *c20RecC     `json:"rec,omitempty"`
 	Dir      *c20DirC     `json:"dir,omitempty"`
+	Plugin   *c20PluginC  `json:"plugin,omitempty"`
+	ProvMsg  *c20ProvMsgC `json:"provmsg,omitempty"`
 }
 
 // c20Obs is what Execute returns for every kind.
@@ -54,14 +56,15 @@ type c20Obs struct {
 
 func (*c20) ID() string { return "C20" }
 func (*c20) CoqImport() string {
-	return "From Helm Require Import Values.Tree Misc.Panics Misc.PanicsStorage Misc.PanicsDeps Misc.PanicsIndex Misc.PanicsSort Misc.PanicsSchema Misc.PanicsStrvalsLex Misc.PanicsRec Misc.PanicsGate Values.Coalesce Run.RunC20."
+	return "From Helm Require Import Values.Tree Misc.Panics Misc.PanicsStorage Misc.PanicsDeps Misc.PanicsIndex Misc.PanicsSort Misc.PanicsSchema Misc.PanicsStrvalsLex Misc.PanicsRec Misc.PanicsGate Misc.PanicsSmall Values.Coalesce Run.RunC20."
 }
 func (*c20) Rule() string {
 	return "structured stream (storage records decodable/undecodable/without info x Get/List/Query/ListDeployed/Deployed/Last on Secrets and ConfigMaps; " +
 		"chart trees with null/duplicate/aliased/missing dependencies and import-values items of every YAML type through LoadFiles+ProcessDependencies; " +
 		"index files with null / metadata-less / invalid entries through LoadIndexFile, Get and Merge; manifest heads; subchart value slots; --set lines around the index and nesting limits; " +
 		"include / tpl / template programs nested around recursionMaxNums, with the same and with varying tpl texts, interpreted by one chart on the real engine; " +
-		"chart directories holding named pipes, sockets, device nodes, symbolic links to them, dangling and looping links, ignored or not, through LoadDir in a child process) compared with the Coq models, " +
+		"chart directories holding named pipes, sockets, device nodes, symbolic links to them, dangling and looping links, ignored or not, through LoadDir in a child process; " +
+		"plugin.yaml files through LoadDir + PrepareCommand; signed-text bodies through parseMessageBlock) compared with the Coq models, " +
 		"plus an exploration stream of raw and mutated bytes into the real parsers under recover+watchdog; " +
 		"non-trivial = a structured case that contains at least one malformed element (undecodable or info-less record, null/ill-typed entry, missing metadata) " +
 		"or an explore case whose input was rejected with an error or accepted after mutation; distinct = hash of (case, observation)"
@@ -83,6 +86,8 @@ func (*c20) Corpus() []any {
 	out = append(out, c20StrvalsCorpus()...)
 	out = append(out, c20RecCorpus()...)
 	out = append(out, c20DirCorpus()...)
+	out = append(out, c20PluginCorpus()...)
+	out = append(out, c20ProvMsgCorpus()...)
 	out = append(out, c20ExploreCorpus()...)
 	return out
 }
@@ -113,6 +118,10 @@ func (*c20) Generate(r *rand.Rand, i int) any {
 		return c20Case{Kind: "rec", Rec: c20GenRec(r)}
 	case k < 66:
 		return c20Case{Kind: "dir", Dir: c20GenDir(r)}
+	case k < 68:
+		return c20Case{Kind: "plugin", Plugin: c20GenPlugin(r)}
+	case k < 70:
+		return c20Case{Kind: "provmsg", ProvMsg: c20GenProvMsg(r)}
 	default:
 		return c20Case{Kind: "explore", Explore: c20GenExplore(r)}
 	}
@@ -182,6 +191,10 @@ func (*c20) execute(c c20Case) any {
 	case "dir":
 		// a named pipe that reaches os.ReadFile blocks for ever: always in the child process
 		return c20ExecDir(c.Dir)
+	case "plugin":
+		return c20ExecPlugin(c.Plugin)
+	case "provmsg":
+		return c20ExecProvMsg(c.ProvMsg)
 	case "explore":
 		// the helm-template path can die of stack exhaustion (unbounded tpl recursion before
 		// 156f591), which recover() cannot catch: always in the child process
@@ -263,6 +276,10 @@ func (*c20) CoqCase(ci, oi any) string {
 		return c20CoqRec(c.Rec, obs)
 	case "dir":
 		return c20CoqDir(c.Dir, obs)
+	case "plugin":
+		return c20CoqPlugin(c.Plugin, obs)
+	case "provmsg":
+		return c20CoqProvMsg(c.ProvMsg, obs)
 	}
 	return "CExplore " + c20Cls(obs.Class)
 }
@@ -301,6 +318,10 @@ func (*c20) NonTrivial(ci, oi any) bool {
 		return c.Rec.malformed()
 	case "dir":
 		return c.Dir.malformed()
+	case "plugin":
+		return c.Plugin.malformed()
+	case "provmsg":
+		return c.ProvMsg.malformed()
 	case "explore":
 		return obs.Class == "err" || c.Explore.Mutations > 0
 	}
